@@ -179,7 +179,7 @@ def run(run):
         for j in range(k):
             w, e, cm, zj = ctx.var(f"w{j}"), ctx.var(f"e{j}"), ctx.var(f"c{j}"), ctx.var(f"z{j}")
             spec = spec + (u ** j) * ((cm + zj * w - e * g) * h - w * xh)
-        def batch_replay(model, V=V, spec=spec, k=k):
+        def batch_replay(model, V=V, spec=spec, k=k, forced=None):
             """concrete batches (i) accepted by the real polynomial, (ii) accepted by the spec: the real
             batch_check (concrete arithmetic, scripted challenge) must agree with the spec on both"""
             import random
@@ -189,6 +189,7 @@ def run(run):
             trials = []
             for t in range(3):
                 env = {n: rnd.randrange(2, R) for n in names}
+                env.update(forced or {})
                 for which, root in (("real", V), ("spec", spec)):
                     e0 = solve_linear(root, env, "e0")
                     if e0 is None:
@@ -204,6 +205,32 @@ def run(run):
                         return True, {"env": henv, "driver": ["kzg", "batch", str(k)], "trials": trials}
             return False, {"trials": trials}
         run.identity(f"{tag}/acceptance==spec", V, spec, replay=batch_replay)
+        # every OTHER accepting path (degenerate inputs: identity witnesses, zero values, ...): under the
+        # path's `variable == constant` conditions its final comparison is still the textbook equation
+        for pi_, p in enumerate(acc):
+            if p is main:
+                continue
+            mp, odd = {}, False
+            for c_ in p["path"][:-1]:
+                a_, b_ = nodes[c_["a"]], nodes[c_["b"]]
+                if not c_["eq"]:
+                    continue
+                if a_.op == "v" and b_.op == "c":
+                    mp[a_.args[0]] = b_
+                elif b_.op == "v" and a_.op == "c":
+                    mp[b_.args[0]] = a_
+                else:
+                    odd = True
+            last = p["path"][-1]
+            Vp = nodes[last["a"]] - nodes[last["b"]]
+            if odd or not last["eq"]:
+                run.inconclusive.append(f"{tag}/degenerate-path{pi_}: accepting path with a condition that is not "
+                                        "`variable == constant`; not compared with the textbook equation")
+                continue
+            Vs, Ss = xe.subst(ctx, [Vp, spec], mp)
+            forced = {n_: int(c_.args[0]) % R for n_, c_ in mp.items()}
+            run.identity(f"{tag}/degenerate-path{pi_}/acceptance==spec under {sorted(mp)}", Vs, Ss,
+                         replay=lambda m_, Vs=Vs, forced=forced: batch_replay(m_, V=Vs, forced=forced))
         for j in range(k):
             for nm in (f"e{j}", f"w{j}", f"c{j}", f"z{j}"):
                 coeff = xe.subst(ctx, [V], {nm: ctx.var(nm) + 1})[0] - V
